@@ -63,6 +63,7 @@ type c07Sess struct {
 	srvKnows bool
 	cliAlive bool // not invalidated / dropped on the client
 	exp      int
+	minted   bool // created by MintClaimSession in the client's cache (fixed lifetime, no lease)
 }
 
 type c07World struct {
@@ -200,7 +201,7 @@ func (w *c07World) handshake(tag, srv string, cmd int) {
 		}
 		ok := r.C.Err == nil && r.S.Err == nil && r.C.Resumed
 		if ok {
-			if s != nil {
+			if s != nil && !s.minted {
 				s.exp = w.now + 1800
 			}
 			w.res.Outcome("resumed")
@@ -283,6 +284,9 @@ func c07Events() []string {
 			}
 		}
 	}
+	// the client process mints a claim session of its own (tag T1 towards A, no tag towards B,
+	// command 5) and the server imports the claim id
+	ev = append(ev, "mint:T1:A", "mint::B")
 	return append(ev, "restartA", "restartB", "break-request", "break-reply", "break-stall", "adv1860", "adv3660", "invalidate-last", "sweep")
 }
 
@@ -299,6 +303,29 @@ func (w *c07World) apply(ev string) bool {
 			cmd = 6
 		}
 		w.handshake(p[1], srv, cmd)
+		return true
+	case strings.HasPrefix(ev, "mint:"):
+		p := strings.Split(ev, ":")
+		srv := c07Srvs[0]
+		if p[2] == "B" {
+			srv = c07Srvs[1]
+		}
+		for _, x := range w.sess {
+			if x.minted && x.srv == srv {
+				return false // one minted claim per server is enough
+			}
+		}
+		mc, err := security.MintClaimSession(w.cache, security.MintClaimOptions{Sinful: "<10.1.1.1:5000>", Birthdate: 1700000000, SequenceNum: len(w.sess) + 1,
+			PeerAddr: peerKey(srv), ValidCommands: []int{5}, Tag: p[1], Lifetime: 3600 * time.Second})
+		if err != nil {
+			w.viol("harness-mint", "%v", err)
+			return false
+		}
+		if _, err := security.ImportClaimSession(security.GetSessionCache(), mc.ClaimID(), security.ClaimSessionOptions{PeerAddr: "<10.1.1.1:5000>", Tag: p[1]}); err != nil {
+			w.viol("harness-mint", "import: %v", err)
+			return false
+		}
+		w.sess = append(w.sess, &c07Sess{sid: mc.SessionID(), tag: p[1], srv: srv, valid: []int{5}, srvKnows: true, cliAlive: true, exp: w.now + 3600, minted: true})
 		return true
 	case ev == "restartA" || ev == "restartB":
 		srv := c07Srvs[0]
@@ -378,7 +405,7 @@ func (w *c07World) stateKey() string {
 		} else if s.exp-w.now <= 1800 {
 			st = "live-short"
 		}
-		parts = append(parts, fmt.Sprintf("%d:%q@%s%v/%s/srv=%v", i, s.tag, string(rune('A'+c07SrvIdx(s.srv))), s.valid, st, s.srvKnows))
+		parts = append(parts, fmt.Sprintf("%d:%q@%s%v/%s/srv=%v/minted=%v", i, s.tag, string(rune('A'+c07SrvIdx(s.srv))), s.valid, st, s.srvKnows, s.minted))
 	}
 	sort.Strings(parts)
 	return strings.Join(parts, " ") + " brk=" + w.brk
